@@ -47,9 +47,9 @@ Failed(r) ==
           (IF r.finite = 1 /\ ~(r.Flo - r.tol <= r.u /\ r.u <= r.Fhi + r.tol) THEN {"draw-does-not-follow-the-law"} ELSE {})
      [] r.kind = "mean" -> IF Near(r.mean, r.ref, r.tol) THEN {} ELSE {"mean-not-as-documented"}
      [] r.kind = "block" ->
-          LET lo == IF r.n <= 1 THEN 0 - S ELSE r.table[r.n - 1]       \* at least one unit is always added
-              hi == IF r.n <= Len(r.table) THEN r.table[r.n] ELSE 2 * S IN
-          IF lo - r.tol <= r.u /\ r.u < hi + r.tol THEN {} ELSE {"block-length-not-from-declared-law"}
+          \* lo = F(M_{n-1}) (minus infinity for n = 1: at least one unit is always added), hi = F(M_n): the declared law at the
+          \* cumulative masses before and after the n-th unit
+          IF r.lo - r.tol <= r.u /\ r.u < r.hi + r.tol THEN {} ELSE {"block-length-not-from-declared-law"}
      [] r.kind = "chain" ->
           (IF Near(r.p * r.sden, r.snum * (r.Fb - r.Fa), r.tol * r.sden) THEN {} ELSE {"chain-probability-differs"})
      [] r.kind = "zero" -> IF Near(r.p, 0, r.tol) THEN {} ELSE {"probability-outside-ensemble-not-zero"}
